@@ -255,69 +255,384 @@ def same(node, src):
     return dump(node) == dump(parse_stmt(src))
 
 
-def wrapper_holes(fn):
-    """Match gamma_UNIFAC / gamma_modified_UNIFAC against the skeleton; return the holes."""
+# ---- normal form of the imperative wrappers --------------------------------------------------------------------
+# The wrappers are compared with the 32 instances of the skeleton AFTER both sides went through the same
+# meaning-preserving normalisation, so that harmless rewrites do not make the translator fail:
+#   N1 docstrings dropped;
+#   N2 calls of module-level helper functions of this file (njit or not) that are written in the same statement
+#      subset are inlined (parameters replaced by the argument names, helper locals made fresh, a returned local takes
+#      the name of the assignment target);
+#   N3 a guard clause `if C: return E` followed by statements ending in `return E` becomes `if not C: ...; return E`
+#      (the comparison is flipped only for integer operands: `.size` values and int literals);
+#   N4 `for i in range(N): ... A[i] ...` with N = A.size and A never written becomes `for i, j in enumerate(A): ... j ...`;
+#   N5 a second binding of `A.size` (A never written) is replaced by the first;
+#   N6 a temporary bound to a call of one of the pure kernels and used exactly once, in the next simple statement whose
+#      other operands are plain names, is substituted;
+#   N7 loop variables are scoped per loop, locals are renamed in order of first binding, parameters by position.
+# Anything outside the statement subset, or a helper that writes to one of its parameters' names, is left alone and then
+# simply fails to match (fail closed).
+WRAPPER_PARAMS = ['x', 'T', 'interactions', 'group_psis', 'group_mask', 'qs', 'rs', 'Qs', 'chemgroups',
+                  'chem_Qfractions', 'index']
+PURE_CALLS = {'loggammacs_UNIFAC', 'loggammacs_modified_UNIFAC'}
+NOT_HELPERS = set(KERNELS) | {'gamma_UNIFAC', 'gamma_modified_UNIFAC', 'fill_group_psis', 'chemgroup_array',
+                              'get_interaction', 'get_chemgroups'}
+
+
+def strip_doc(body):
+    b = list(body)
+    if b and isinstance(b[0], ast.Expr) and isinstance(getattr(b[0], 'value', None), ast.Constant) \
+            and isinstance(b[0].value.value, str):
+        b = b[1:]
+    return b
+
+
+class Rename(ast.NodeTransformer):
+    def __init__(self, m): self.m = m
+    def visit_Name(self, n):
+        if n.id in self.m:
+            return ast.copy_location(ast.Name(id=self.m[n.id], ctx=n.ctx), n)
+        return n
+    def visit_arg(self, n):
+        if n.arg in self.m:
+            n.arg = self.m[n.arg]
+        return n
+
+
+def stored_names(nodes):
+    out = []
+    for st in nodes:
+        for n in ast.walk(st):
+            if isinstance(n, ast.Name) and isinstance(n.ctx, ast.Store) and n.id not in out:
+                out.append(n.id)
+    return out
+
+
+def written_bases(nodes):
+    """names that are rebound, augmented-assigned, or written through a subscript"""
+    w = set()
+    for st in nodes:
+        for n in ast.walk(st):
+            if isinstance(n, ast.Name) and isinstance(n.ctx, ast.Store): w.add(n.id)
+            if isinstance(n, ast.Subscript) and isinstance(n.ctx, ast.Store) and isinstance(n.value, ast.Name): w.add(n.value.id)
+            if isinstance(n, ast.AugAssign):
+                t = n.target
+                if isinstance(t, ast.Name): w.add(t.id)
+                if isinstance(t, ast.Subscript) and isinstance(t.value, ast.Name): w.add(t.value.id)
+    return w
+
+
+def simple_helper(fn):
+    """a helper that can be inlined: plain positional parameters, allowed decorators, no write to a parameter NAME,
+    `return` only as the last statement"""
+    a = fn.args
+    if a.vararg or a.kwarg or a.kwonlyargs or a.defaults or a.posonlyargs: return False
+    for d in fn.decorator_list:
+        nm = d.func.id if isinstance(d, ast.Call) and isinstance(d.func, ast.Name) else getattr(d, 'id', None)
+        if nm not in ALLOWED_DECORATORS: return False
+    body = strip_doc(fn.body)
+    if not body: return False
+    params = {p.arg for p in a.args}
+    if params & set(stored_names(body)): return False
+    for st in body[:-1]:
+        if any(isinstance(n, (ast.Return, ast.Yield, ast.YieldFrom, ast.Global, ast.Nonlocal, ast.FunctionDef, ast.Lambda))
+               for n in ast.walk(st)):
+            return False
+    last = body[-1]
+    if any(isinstance(n, ast.Return) for st in ([last] if not isinstance(last, ast.Return) else []) for n in ast.walk(st)):
+        return False
+    return True
+
+
+class Normaliser:
+    def __init__(self, helpers):
+        self.helpers = helpers
+        self.k = 0
+
+    def fresh(self, base):
+        self.k += 1
+        return f'h{self.k}_{base}'
+
+    # N2
+    def inline_stmt(self, st, depth):
+        call, target = None, None
+        if isinstance(st, ast.Expr) and isinstance(st.value, ast.Call):
+            call = st.value
+        elif isinstance(st, ast.Assign) and len(st.targets) == 1 and isinstance(st.targets[0], ast.Name) \
+                and isinstance(st.value, ast.Call):
+            call, target = st.value, st.targets[0].id
+        if call is None or not isinstance(call.func, ast.Name) or call.func.id not in self.helpers or call.keywords \
+                or depth > 3:
+            return None
+        fn = self.helpers[call.func.id]
+        if not simple_helper(fn) or len(call.args) != len(fn.args.args) or not all(isinstance(a, ast.Name) for a in call.args):
+            return None
+        import copy
+        body = copy.deepcopy(strip_doc(fn.body))
+        params = [p.arg for p in fn.args.args]
+        ret = body[-1] if isinstance(body[-1], ast.Return) else None
+        stmts = body[:-1] if ret is not None else body
+        m = {p: a.id for p, a in zip(params, call.args)}
+        locs = [n for n in stored_names(body) if n not in params]
+        if ret is not None and target is not None and isinstance(ret.value, ast.Name) and ret.value.id in locs \
+                and target not in m.values():
+            m[ret.value.id] = target          # the returned local IS the target
+            tail = []
+        elif ret is not None and target is not None and ret.value is not None:
+            tail = 'assign'
+        elif target is None:
+            tail = []
+        else:
+            return None
+        for l in locs:
+            if l not in m: m[l] = self.fresh(l)
+        stmts = [Rename(m).visit(x) for x in stmts]
+        if tail == 'assign':
+            stmts.append(ast.Assign(targets=[ast.Name(id=target, ctx=ast.Store())], value=Rename(m).visit(ret.value)))
+        return self.block(stmts, depth + 1)
+
+    def block(self, stmts, depth=0):
+        out = []
+        for st in stmts:
+            if isinstance(st, ast.Expr) and isinstance(getattr(st, 'value', None), ast.Constant) and isinstance(st.value.value, str):
+                continue
+            inl = self.inline_stmt(st, depth)
+            if inl is not None:
+                out += inl
+                continue
+            if isinstance(st, ast.If):
+                st.body = self.block(st.body, depth); st.orelse = self.block(st.orelse, depth)
+            elif isinstance(st, ast.For):
+                st.body = self.block(st.body, depth); st.orelse = self.block(st.orelse, depth)
+            out.append(st)
+        return out
+
+
+def int_valued(e, sizes):
+    return (isinstance(e, ast.Constant) and isinstance(e.value, int) and not isinstance(e.value, bool)) or \
+           (isinstance(e, ast.Name) and e.id in sizes)
+
+
+def negate(test, sizes):
+    flip = {ast.Lt: ast.GtE, ast.GtE: ast.Lt, ast.LtE: ast.Gt, ast.Gt: ast.LtE, ast.Eq: ast.NotEq, ast.NotEq: ast.Eq}
+    if isinstance(test, ast.Compare) and len(test.ops) == 1 and type(test.ops[0]) in flip \
+            and int_valued(test.left, sizes) and int_valued(test.comparators[0], sizes):
+        return ast.Compare(left=test.left, ops=[flip[type(test.ops[0])]()], comparators=test.comparators)
+    return ast.UnaryOp(op=ast.Not(), operand=test)
+
+
+def size_bindings(body, written):
+    """name -> base for single assignments `name = base.size` with base never written"""
+    counts, sizes = {}, {}
+    for st in body:
+        for n in ast.walk(st):
+            if isinstance(n, ast.Name) and isinstance(n.ctx, ast.Store): counts[n.id] = counts.get(n.id, 0) + 1
+    def scan(stmts):
+        for st in stmts:
+            if isinstance(st, ast.Assign) and len(st.targets) == 1 and isinstance(st.targets[0], ast.Name) \
+                    and isinstance(st.value, ast.Attribute) and st.value.attr == 'size' and isinstance(st.value.value, ast.Name) \
+                    and st.value.value.id not in written and counts.get(st.targets[0].id) == 1:
+                sizes[st.targets[0].id] = st.value.value.id
+            for f in ('body', 'orelse'):
+                if hasattr(st, f): scan(getattr(st, f))
+    scan(body)
+    return sizes
+
+
+def guard_clauses(stmts, sizes):
+    out = list(stmts)
+    for f in ('body', 'orelse'):
+        for st in out:
+            if hasattr(st, f): setattr(st, f, guard_clauses(getattr(st, f), sizes))
+    for i, st in enumerate(out):
+        if isinstance(st, ast.If) and not st.orelse and len(st.body) == 1 and isinstance(st.body[0], ast.Return) \
+                and i + 1 < len(out) and isinstance(out[-1], ast.Return) and st.body[0].value is not None \
+                and out[-1].value is not None and dump(st.body[0].value) == dump(out[-1].value):
+            rest = guard_clauses(out[i + 1:-1], sizes)
+            if any(isinstance(n, ast.Return) for r in rest for n in ast.walk(r)):
+                return out
+            return out[:i] + [ast.If(test=negate(st.test, sizes), body=rest, orelse=[]), out[-1]]
+    return out
+
+
+class SubscriptToName(ast.NodeTransformer):
+    def __init__(self, base, idx, new): self.base, self.idx, self.new = base, idx, new
+    def visit_Subscript(self, n):
+        if isinstance(n.value, ast.Name) and n.value.id == self.base and isinstance(n.slice, ast.Name) \
+                and n.slice.id == self.idx and isinstance(n.ctx, ast.Load):
+            return ast.Name(id=self.new, ctx=ast.Load())
+        return self.generic_visit(n)
+
+
+def range_loops(stmts, sizes, norm):
+    out = []
+    for st in stmts:
+        for f in ('body', 'orelse'):
+            if hasattr(st, f): setattr(st, f, range_loops(getattr(st, f), sizes, norm))
+        if isinstance(st, ast.For) and isinstance(st.target, ast.Name) and isinstance(st.iter, ast.Call) \
+                and isinstance(st.iter.func, ast.Name) and st.iter.func.id == 'range' and len(st.iter.args) == 1 \
+                and isinstance(st.iter.args[0], ast.Name) and st.iter.args[0].id in sizes and not st.orelse:
+            base, i = sizes[st.iter.args[0].id], st.target.id
+            uses = [n for b in st.body for n in ast.walk(b) if isinstance(n, ast.Name) and n.id == base]
+            j = norm.fresh('j')
+            newbody = [SubscriptToName(base, i, j).visit(b) for b in st.body]
+            left = [n for b in newbody for n in ast.walk(b) if isinstance(n, ast.Name) and n.id == base]
+            if uses and not left and i not in stored_names(st.body):
+                st = ast.For(target=ast.Tuple(elts=[ast.Name(id=i, ctx=ast.Store()), ast.Name(id=j, ctx=ast.Store())], ctx=ast.Store()),
+                             iter=ast.Call(func=ast.Name(id='enumerate', ctx=ast.Load()), args=[ast.Name(id=base, ctx=ast.Load())], keywords=[]),
+                             body=newbody, orelse=[])
+        out.append(st)
+    return out
+
+
+def merge_sizes(stmts, sizes):
+    """N5: later `b = A.size` replaced by the earlier `a = A.size`"""
+    first, m = {}, {}
+    def scan(ss):
+        out = []
+        for st in ss:
+            if isinstance(st, ast.Assign) and len(st.targets) == 1 and isinstance(st.targets[0], ast.Name) \
+                    and st.targets[0].id in sizes:
+                base = sizes[st.targets[0].id]
+                if base in first:
+                    m[st.targets[0].id] = first[base]
+                    continue
+                first[base] = st.targets[0].id
+            for f in ('body', 'orelse'):
+                if hasattr(st, f): setattr(st, f, scan(getattr(st, f)))
+            out.append(st)
+        return out
+    out = scan(stmts)
+    return [Rename(m).visit(st) for st in out] if m else out
+
+
+def plain(e):
+    return isinstance(e, (ast.Name, ast.Constant))
+
+
+def temporaries(stmts, all_stmts):
+    """N6"""
+    out = list(stmts)
+    for f in ('body', 'orelse'):
+        for st in out:
+            if hasattr(st, f): setattr(st, f, temporaries(getattr(st, f), all_stmts))
+    i = 0
+    while i + 1 < len(out):
+        st, nx = out[i], out[i + 1]
+        if isinstance(st, ast.Assign) and len(st.targets) == 1 and isinstance(st.targets[0], ast.Name) \
+                and isinstance(st.value, ast.Call) and isinstance(st.value.func, ast.Name) and st.value.func.id in PURE_CALLS \
+                and all(plain(a) for a in st.value.args) and not st.value.keywords:
+            t = st.targets[0].id
+            loads = [n for s in all_stmts for n in ast.walk(s) if isinstance(n, ast.Name) and n.id == t and isinstance(n.ctx, ast.Load)]
+            stores = [n for s in all_stmts for n in ast.walk(s) if isinstance(n, ast.Name) and n.id == t and isinstance(n.ctx, ast.Store)]
+            if len(loads) == 1 and len(stores) == 1 and isinstance(nx, ast.Assign) and isinstance(nx.value, ast.Call) \
+                    and isinstance(nx.value.func, ast.Name) and not nx.value.keywords and all(plain(a) for a in nx.value.args) \
+                    and any(isinstance(a, ast.Name) and a.id == t for a in nx.value.args):
+                nx.value.args = [st.value if (isinstance(a, ast.Name) and a.id == t) else a for a in nx.value.args]
+                del out[i]
+                continue
+        i += 1
+    return out
+
+
+def scope_loops(stmts, counter, outside_loads):
+    for st in stmts:
+        if isinstance(st, ast.For):
+            targets = [n.id for n in ast.walk(st.target) if isinstance(n, ast.Name)]
+            if not any(t in outside_loads for t in targets):
+                counter[0] += 1
+                m = {t: f'L{counter[0]}_{k}' for k, t in enumerate(targets)}
+                Rename(m).visit(st)
+        for f in ('body', 'orelse'):
+            if hasattr(st, f): scope_loops(getattr(st, f), counter, outside_loads)
+
+
+def loads_outside_loops(stmts, inside=False):
+    out = set()
+    for st in stmts:
+        if isinstance(st, ast.For):
+            out |= {n.id for n in ast.walk(st.iter) if isinstance(n, ast.Name)} if not inside else set()
+            out |= loads_outside_loops(st.body, True)
+        elif isinstance(st, ast.If):
+            if not inside:
+                out |= {n.id for n in ast.walk(st.test) if isinstance(n, ast.Name) and isinstance(n.ctx, ast.Load)}
+            out |= loads_outside_loops(st.body, inside) | loads_outside_loops(st.orelse, inside)
+        elif not inside:
+            out |= {n.id for n in ast.walk(st) if isinstance(n, ast.Name) and isinstance(n.ctx, ast.Load)}
+    return out
+
+
+def alpha(fn_params, stmts):
+    m = {p: f'p{k}' for k, p in enumerate(fn_params)}
+    order = []
+    class V(ast.NodeVisitor):
+        def visit_Name(self, n):
+            if isinstance(n.ctx, ast.Store) and n.id not in m and n.id not in order: order.append(n.id)
+    for st in stmts: V().visit(st)
+    for k, n in enumerate(order): m[n] = f'v{k}'
+    return [Rename(m).visit(st) for st in stmts]
+
+
+def normal_form(fn, helpers):
+    import copy
+    fn = copy.deepcopy(fn)
+    norm = Normaliser(helpers)
+    body = norm.block(strip_doc(fn.body))                              # N1, N2
+    written = written_bases(body)
+    sizes = size_bindings(body, written)
+    body = guard_clauses(body, sizes)                                  # N3
+    body = range_loops(body, sizes, norm)                              # N4
+    body = merge_sizes(body, sizes)                                    # N5
+    body = temporaries(body, body)                                     # N6
+    scope_loops(body, [0], loads_outside_loops(body))                  # N7
+    body = alpha([p.arg for p in fn.args.args], body)
+    mod = ast.Module(body=body, type_ignores=[])
+    ast.fix_missing_locations(mod)
+    return [dump(s) for s in body]
+
+
+SKELETON = """def {name}(x, T, interactions, group_psis, group_mask, qs, rs, Qs, chemgroups, chem_Qfractions, index):
+    N_chemicals = index.size
+    gamma = np.ones(x.size)
+    if N_chemicals > 1:
+        interactions = interactions.copy()
+        x_sub = np.ones(N_chemicals)
+        for i, j in enumerate(index): {gather}
+        xsum = x_sub.sum()
+        if {cond}:
+            x_sub /= xsum
+            psis = {psi}(T, interactions)
+            fill_group_psis(group_psis, psis, group_mask)
+            gamma_sub = group_activity_coefficients(x_sub, chemgroups, {lgc}(qs, rs, x_sub), Qs, psis, chem_Qfractions, group_psis)
+{inside}{after}    return gamma
+"""
+SCATTER = ("{ind}for i, j in enumerate(index):\n{ind}    value = gamma_sub[i]\n{ind}    if np.isnan(value): continue\n"
+           "{ind}    gamma[j] = value\n")
+
+
+def wrapper_holes(fn, helpers=None):
+    """Match gamma_UNIFAC / gamma_modified_UNIFAC (in normal form) against the 32 instances of the skeleton (in the same
+    normal form); return the holes of the instance that matches."""
     f = fn.name
-    params = [p.arg for p in fn.args.args]
-    expect = ['x', 'T', 'interactions', 'group_psis', 'group_mask', 'qs', 'rs', 'Qs', 'chemgroups',
-              'chem_Qfractions', 'index']
-    if params != expect:
-        fail(fn, f'parameters {params}', f)
-    body = list(fn.body)
-    if len(body) != 4:
-        fail(fn, f'{len(body)} top-level statements, skeleton has 4', f)
-    if not same(body[0], 'N_chemicals = index.size'): fail(body[0], 'skeleton line 1', f)
-    if not same(body[1], 'gamma = np.ones(x.size)'): fail(body[1], 'skeleton line 2', f)
-    if not same(body[3], 'return gamma'): fail(body[3], 'skeleton return', f)
-    top = body[2]
-    if not (isinstance(top, ast.If) and not top.orelse and dump(top.test) == dump(parse_stmt('N_chemicals > 1').value)):
-        fail(top, 'skeleton `if N_chemicals > 1:`', f)
-    b = list(top.body)
-    scatter_src = ('for i, j in enumerate(index):\n    value = gamma_sub[i]\n    if np.isnan(value): continue\n'
-                   '    gamma[j] = value')
-    if len(b) not in (5, 6):
-        fail(top, f'{len(b)} statements under `if N_chemicals > 1`', f)
-    if not same(b[0], 'interactions = interactions.copy()'): fail(b[0], 'skeleton copy of interactions', f)
-    if not same(b[1], 'x_sub = np.ones(N_chemicals)'): fail(b[1], 'skeleton x_sub', f)
-    g = b[2]
-    if same(g, 'for i, j in enumerate(index): x_sub[i] = x[j]'):
-        gdir = 'GatherIntoSub'
-    elif same(g, 'for i, j in enumerate(index): x[j] = x_sub[i]'):
-        gdir = 'WriteIntoX'
-    else:
-        fail(g, 'gather loop is neither `x_sub[i] = x[j]` nor `x[j] = x_sub[i]`', f)
-    if not same(b[3], 'xsum = x_sub.sum()'): fail(b[3], 'skeleton xsum', f)
-    inner = b[4]
-    if not (isinstance(inner, ast.If) and not inner.orelse):
-        fail(inner, 'skeleton `if xsum`', f)
-    t = dump(inner.test)
-    if t not in (dump(parse_stmt('xsum').value), dump(parse_stmt('xsum != 0').value)):
-        fail(inner, 'test on xsum is neither `xsum` nor `xsum != 0`', f)
-    ib = list(inner.body)
-    if len(ib) not in (4, 5):
-        fail(inner, f'{len(ib)} statements under `if xsum`', f)
-    if not same(ib[0], 'x_sub /= xsum'): fail(ib[0], 'skeleton normalisation', f)
-    psi = None
-    for cand in ('psi_UNIFAC', 'psi_modified_UNIFAC'):
-        if same(ib[1], f'psis = {cand}(T, interactions)'):
-            psi = cand
-    if psi is None: fail(ib[1], 'skeleton psis', f)
-    if not same(ib[2], 'fill_group_psis(group_psis, psis, group_mask)'): fail(ib[2], 'skeleton fill_group_psis', f)
-    lgc = None
-    for cand in ('loggammacs_UNIFAC', 'loggammacs_modified_UNIFAC'):
-        if same(ib[3], f'gamma_sub = group_activity_coefficients(x_sub, chemgroups, {cand}(qs, rs, x_sub), Qs, psis, '
-                       f'chem_Qfractions, group_psis)'):
-            lgc = cand
-    if lgc is None: fail(ib[3], 'skeleton gamma_sub', f)
-    if len(ib) == 5 and len(b) == 5:
-        if not same(ib[4], scatter_src): fail(ib[4], 'skeleton scatter loop (inside)', f)
-        scatter = 'ScatterInside'
-    elif len(ib) == 4 and len(b) == 6:
-        if not same(b[5], scatter_src): fail(b[5], 'skeleton scatter loop (after)', f)
-        scatter = 'ScatterAfter'
-    else:
-        fail(top, 'scatter loop must occur exactly once (under `if xsum` or right after it)', f)
-    return gdir, scatter, psi, lgc
+    if len(fn.args.args) != len(WRAPPER_PARAMS) or fn.args.vararg or fn.args.kwarg or fn.args.kwonlyargs or fn.args.defaults:
+        fail(fn, f'parameters {[p.arg for p in fn.args.args]}', f)
+    for d in fn.decorator_list:
+        nm = d.func.id if isinstance(d, ast.Call) and isinstance(d.func, ast.Name) else getattr(d, 'id', None)
+        if nm not in ALLOWED_DECORATORS:
+            fail(d, 'decorator outside the allow-list', f)
+    actual = normal_form(fn, helpers or {})
+    for gdir, gather in (('GatherIntoSub', 'x_sub[i] = x[j]'), ('WriteIntoX', 'x[j] = x_sub[i]')):
+        for cond in ('xsum', 'xsum != 0'):
+            for psi in ('psi_UNIFAC', 'psi_modified_UNIFAC'):
+                for lgc in ('loggammacs_UNIFAC', 'loggammacs_modified_UNIFAC'):
+                    for scatter in ('ScatterInside', 'ScatterAfter'):
+                        src = SKELETON.format(name=f, gather=gather, cond=cond, psi=psi, lgc=lgc,
+                                              inside=SCATTER.format(ind=' ' * 12) if scatter == 'ScatterInside' else '',
+                                              after=SCATTER.format(ind=' ' * 8) if scatter == 'ScatterAfter' else '')
+                        cand = ast.parse(src).body[0]
+                        if normal_form(cand, {}) == actual:
+                            return gdir, scatter, psi, lgc
+    fail(fn, 'body (after inlining helpers, guard clauses, loop forms, temporaries and renaming) matches no instance of the '
+             'gather / evaluate / scatter skeleton', f)
 
 
 def fill_group_psis_ok(fn):
@@ -442,7 +757,8 @@ def translate(repo=None):
     fill_group_psis_ok(fns['fill_group_psis'])
     ic = class_checks(tree)
     w = [f'(* GENERATED by tr/C16_kernels.py from {SRC}', f'   sha256 {sha}',
-         '   gamma_UNIFAC, gamma_modified_UNIFAC: statement skeleton matched, holes below;',
+         '   gamma_UNIFAC, gamma_modified_UNIFAC: normal form (helpers inlined, guard clauses, loop forms, temporaries,',
+         '   names) equal to an instance of the statement skeleton, holes below;',
          '   fill_group_psis: loop nest identical to the one transcribed in Wrapper.v;',
          '   GroupActivityCoefficients.__slots__/__new__ attribute set/args/__call__ and the f properties: identical to',
          '   the text transcribed in Model.v (no per-object state besides the group_psis buffer);',
@@ -450,8 +766,9 @@ def translate(repo=None):
          '   psi / loggammacs properties of the three classes return the kernels used below *)',
          'From V Require Export C16.Gen_kernels C16.Wrapper.', 'Section GenW.', 'Context {A : Type} (K : KOps A).', '']
     info = {}
+    helpers = {k: v for k, v in fns.items() if k not in NOT_HELPERS}
     for name in ('gamma_UNIFAC', 'gamma_modified_UNIFAC'):
-        gdir, scatter, psi, lgc = wrapper_holes(fns[name])
+        gdir, scatter, psi, lgc = wrapper_holes(fns[name], helpers)
         info[name] = [gdir, scatter, psi, lgc]
         w.append(f'Definition {name} := wrapper K {gdir} {scatter} ({psi} K) ({lgc} K) '
                  f'(group_activity_coefficients K).')
